@@ -158,7 +158,11 @@ class C18(Prop):
         return engine.run_check(self, tier, seed, repo)
 
     def extra_checks(self, ctx):
-        ctx['ev']['entry_points'] = {self.ROUTES.get(c, c): n for c, n in sorted(self.route_counts.items())}
+        ep = {}
+        for c, n in sorted(self.route_counts.items()):
+            r = self.ROUTES.get(c, c)
+            ep[r] = ep.get(r, 0) + n
+        ctx['ev']['entry_points'] = ep
         ctx['ev']['entry_points_not_called'] = self.NOT_CALLED
         return []
 
